@@ -119,6 +119,8 @@ struct Report {
     if (!describing) return;
     char buf[2048]; va_list ap; va_start(ap, fmt); vsnprintf(buf, sizeof buf, fmt, ap); va_end(ap);
     if (text.size() < 6000) { text += buf; text += "; "; }
+    static const bool trace = getenv("VP_TRACE") != nullptr;   // debugging aid: see the steps of a case that aborts before it can be described
+    if (trace) { fprintf(stderr, "[trace] %s\n", buf); fflush(stderr); }
   }
 };
 
